@@ -600,8 +600,9 @@ func (t *tokenAwareHostPolicy) Pick(qry ExecutableQuery) NextHost {
 
 	var replicas []*HostInfo
 	if ht == nil {
-		host, _ := meta.tokenRing.GetHostForToken(token)
-		replicas = []*HostInfo{host}
+		if host, _ := meta.tokenRing.GetHostForToken(token); host != nil {
+			replicas = []*HostInfo{host}
+		}
 	} else {
 		replicas = ht.hosts
 		if t.shuffleReplicas {
